@@ -39,7 +39,7 @@ def _has_quantifier(e, _cache={}):
     return r
 
 
-def discharge(ob, timeout_ms, _phase=0):
+def discharge(ob, timeout_ms, _phase=0, single=False):
     """negated obligation: unsat = discharged, sat = refuted (with model), unknown = undecided.
     Order of attempts: all hypotheses; hypothesis slices; then the seed portfolio (phase 1)"""
     g = z3.simplify(ob.goal)
@@ -64,7 +64,7 @@ def discharge(ob, timeout_ms, _phase=0):
         if r == z3.sat:
             return Result(ob, 'refuted', dt, 'z3', model=s.model())
         reason = s.reason_unknown()
-    if _phase == 1:
+    if _phase == 1 or single:
         return Result(ob, 'unknown', time.time() - t0, 'z3', reason=reason)
     # undecided with all hypotheses: retry from fewer (the goal alone, the hypotheses that share symbols
     # with the goal, the quantifier-free part); a proof from fewer hypotheses is still a proof
